@@ -387,6 +387,7 @@ impl ParsedPacket {
         assert_eq!(self.ext_flags, parsed_packet.ext_flags);
         self.maybe_compressed = false;
         self.packet = Some(parsed_packet.into_packet());
+        self.cached = None;
         Ok(())
     }
 
@@ -479,6 +480,7 @@ impl ParsedPacket {
         assert_eq!(self.ext_flags, parsed_packet.ext_flags);
         self.maybe_compressed = true;
         self.packet = Some(parsed_packet.into_packet());
+        self.cached = None;
         Ok(())
     }
 }
